@@ -141,6 +141,16 @@ def Rel.holds (r : Rel) (o : Option Ordering) : Bool :=
   | .ne, _ => true
   | _, _ => false
 
+/-- On integers `Rel.holds ∘ compare` is the relation itself. -/
+theorem holds_compare (r : Rel) (a b : Int) :
+    r.holds (some (compare a b)) = (match r with
+      | .lt => decide (a < b) | .le => decide (a ≤ b) | .gt => decide (a > b)
+      | .ge => decide (a ≥ b) | .eq => decide (a = b) | .ne => decide (a ≠ b)) := by
+  rcases Int.lt_trichotomy a b with h | h | h
+  · rw [Int.compare_eq_lt.mpr h]; cases r <;> simp [Rel.holds] <;> omega
+  · subst h; rw [Int.compare_eq_eq.mpr rfl]; cases r <;> simp [Rel.holds]
+  · rw [Int.compare_eq_gt.mpr h]; cases r <;> simp [Rel.holds] <;> omega
+
 def Cond.eval (s : Src) : Cond → Option Bool
   | .rel r l t => do
     let a ← l.eval s
